@@ -452,20 +452,32 @@ def check_instance(model, st, snap, msgs):
             if g is not None:
                 instmodel.compare_glyph(g, layer[name], model.rg, "glyph/%s" % name, msgs)
                 claims += 1
-    # kerning (pre-swap names; skip when rules fired)
-    if not swaps:
-        exp, groups = model.kerning_expect(st["loc"])
-        if exp is not None:
-            igroups = {k: v for k, v in snap["groups"].items()
-                       if k.startswith(instmodel.K1) or k.startswith(instmodel.K2)}
-            for key, v in exp.items():
-                l, r = key.split("|")
-                got, amb = instmodel.kern_lookup(snap["kerning"], igroups, (l, r))
-                if amb:
-                    continue
-                if not instmodel.num_close(v, got, model.rg):
-                    msgs.append("kerning/%s model %r got %r" % (key, v, got))
-                claims += 1
+    # groups: all of the default source's groups, with rule swaps applied to the members
+    def ren_all(name):
+        for a_, b_ in swaps:
+            name = b_ if name == a_ else a_ if name == b_ else name
+        return name
+
+    dtwin = model.twins[model.sources[model.default_idx]["font"]]
+    for gname, members in dtwin["groups"].items():
+        want = [ren_all(m) for m in members]
+        got = snap["groups"].get(gname)
+        if got is None or list(got) != want:
+            msgs.append("groups/%s model %r got %r" % (gname, want, got))
+        claims += 1
+    # kerning: the model's value for every master pair, under the swapped names
+    exp, groups = model.kerning_expect(st["loc"])
+    if exp is not None:
+        igroups = {k: v for k, v in snap["groups"].items()
+                   if k.startswith(instmodel.K1) or k.startswith(instmodel.K2)}
+        for key, v in exp.items():
+            l, r = key.split("|")
+            got, amb = instmodel.kern_lookup(snap["kerning"], igroups, (ren_all(l), ren_all(r)))
+            if amb:
+                continue
+            if not instmodel.num_close(v, got, model.rg):
+                msgs.append("kerning/%s model %r got %r" % (key, v, got))
+            claims += 1
     # the instance records its *full* design location (defaults filled in)
     full = instmodel.full_location(st["loc"], model.bounds)
     got_loc = snap["lib"].get("designspace.location")
